@@ -64,6 +64,63 @@ def _flow(fa, expr, at=None, _seen=None, _out=None):
     return out
 
 
+def _alternatives(fa, expr, at, depth=6):
+    """The expressions `expr` (evaluated at CFG node `at`) may stand for, as (expr, node) pairs: a local name is
+    followed to every definition that reaches it (several branches assigning it, a loop variable ranging over a
+    literal tuple / unpacked from a literal tuple of tuples); a conditional expression gives both arms.  What
+    cannot be followed is returned as it is."""
+    if depth <= 0:
+        return [(expr, at)]
+    if isinstance(expr, ast.IfExp):
+        return _alternatives(fa, expr.body, at, depth - 1) + _alternatives(fa, expr.orelse, at, depth - 1)
+    if isinstance(expr, ast.Name):
+        ds = fa.df.reaching(at, expr.id)
+        out = []
+        for d in ds:
+            if d.kind == "assign" and d.value is not None:
+                out += _alternatives(fa, d.value, d.node, depth - 1)
+                continue
+            if d.kind == "for" and isinstance(d.stmt, (ast.For, ast.AsyncFor)) and isinstance(d.stmt.iter, (ast.Tuple, ast.List)) and d.stmt.iter.elts:
+                tg, it = d.stmt.target, d.stmt.iter
+                if isinstance(tg, ast.Name):
+                    for e in it.elts:
+                        out += _alternatives(fa, e, d.node, depth - 1)
+                    continue
+                if isinstance(tg, (ast.Tuple, ast.List)) and all(isinstance(x, ast.Name) for x in tg.elts) \
+                        and all(isinstance(e, (ast.Tuple, ast.List)) and len(e.elts) == len(tg.elts) for e in it.elts):
+                    idx = [x.id for x in tg.elts].index(expr.id)
+                    for e in it.elts:
+                        out += _alternatives(fa, e.elts[idx], d.node, depth - 1)
+                    continue
+            return [(expr, at)]
+        return out or [(expr, at)]
+    return [(expr, at)]
+
+
+def _sources(fa, expr, at):
+    """Name-independent texts of what `expr` may stand for (see _alternatives)."""
+    return {fa.xnorm(e, a) for (e, a) in _alternatives(fa, expr, at)}
+
+
+def _call_arg(ck, call, callee_qual, name):
+    """The argument bound to parameter `name` of the callee, passed by keyword or by position."""
+    v = A.kwarg(call, name)
+    if v is not None:
+        return v
+    fi = ck.repo.try_func(callee_qual)
+    if fi is None or name not in fi.params:
+        return None
+    ps = [p_ for p_ in fi.params if not (p_ in ("self", "cls") and not fi.is_static)]
+    return A.arg_or_kw(call, ps.index(name), name) if name in ps else None
+
+
+def _single_conj(conds):
+    """The literals of a one-conjunct DNF, or None."""
+    if conds is None or len(conds) != 1:
+        return None
+    return set(next(iter(conds)))
+
+
 def _reads_attr(fa, expr, attr, at=None):
     """Does the value of `expr` derive from `<something>.attr` / getattr(<something>, 'attr'[, default])?"""
     for n in _flow(fa, expr, at).values():
@@ -454,40 +511,69 @@ def check_descent_complete(ck, R):
     ck.rule(R, "transitive descent is complete: memento rules visit required and detected dependencies, plain-function "
                "rules every dotted name; every resolved rule is descended into; the only pruning is 'already collected', "
                "the blacklist, and package scope for plain functions", 8)
+    VD = CH + ".HashRule._visit_dependency"
     m = FA(ck, CH + ".MementoFunctionHashRule.collect_transitive_dependencies")
-    loops = [n.ast for n in m.cfg.nodes if n.kind == "for"]
     lnode = {id(x.ast): x.id for x in m.cfg.nodes if x.kind == "for"}
-    xiter = {id(l): m.xnorm(l.iter, lnode[id(l)]) for l in loops}
-    srcs = set(xiter.values())
+
+    def visits(fx):
+        """(call, innermost loop, what that loop may iterate) for every _visit_dependency call whose symbol= is the loop variable."""
+        ln = {id(x.ast): x.id for x in fx.cfg.nodes if x.kind == "for"}
+        out = []
+        for c in fx.calls("_visit_dependency"):
+            l = fx.enclosing(c, (ast.For, ast.AsyncFor))
+            sym = _call_arg(ck, c, VD, "symbol")
+            if l is None or id(l) not in ln or sym is None or not isinstance(l.target, ast.Name) or A.norm(sym) != l.target.id:
+                out.append((c, l, set()))
+                continue
+            out.append((c, l, _sources(fx, l.iter, ln[id(l)])))
+        return out
+
+    mv = visits(m)
+    del lnode
     for need in ("self.memento_fn.required_dependencies", "self.memento_fn.detected_dependencies"):
-        ok = need in srcs and any(xiter[id(l)] == need and any(A.call_attr(c) == "_visit_dependency" for c in A.calls_in(l)) for l in loops)
+        ok = any(need in srcs for (c, l, srcs) in mv)
         ck.ob(R, m.key(None, need.split(".")[2]), ok, "%s are visited" % need.split(".")[2] if ok else
               "a memento rule no longer visits %s: changes beneath them do not change the version" % need.split(".")[2], m.where())
-    for l in loops:
-        for c in [c for c in A.calls_in(l) if A.call_attr(c) == "_visit_dependency"]:
-            at_ = m.nodes(c)[0]
-            okv = A.norm(A.kwarg(c, "symbol")) == A.norm(l.target) and A.norm(A.kwarg(c, "result")) == "result" \
-                and A.kwarg(c, "src_fn") is not None and m.xnorm(A.kwarg(c, "src_fn"), at_) == "self.memento_fn.src_fn" \
-                and A.kwarg(c, "first_level") is not None and m.xnorm(A.kwarg(c, "first_level"), at_) == "self.memento_fn is root_fn"
-            ck.ob(R, m.key(None, "visit-args:" + xiter[id(l)].split(".")[-1]), okv, "each dependency symbol is resolved in the function's own globals, first_level iff root" if okv else
+    for (c, l, srcs) in mv:
+        at_ = m.nodes(c)[0]
+        a_res, a_src, a_fl = _call_arg(ck, c, VD, "result"), _call_arg(ck, c, VD, "src_fn"), _call_arg(ck, c, VD, "first_level")
+        okv = bool(srcs) and a_res is not None and A.norm(a_res) == "result" \
+            and a_src is not None and m.xnorm(a_src, at_) == "self.memento_fn.src_fn" \
+            and a_fl is not None and m.xnorm(a_fl, at_) in ("self.memento_fn is root_fn", "root_fn is self.memento_fn")
+        for src in sorted(srcs) or ["?"]:
+            ck.ob(R, m.key(None, "visit-args:" + src.split(".")[-1]), okv, "each dependency symbol is resolved in the function's own globals, first_level iff root" if okv else
                   "_visit_dependency is not called with (result, src_fn=memento_fn.src_fn, symbol=<dep>, first_level=memento_fn is root_fn)", m.where(c))
-    # pruning of memento rules: only `self in result`
-    rets = [r for r in m.returns()]
-    okp = all(isinstance(m.enclosing(r, ast.If), ast.If) and A.norm(m.enclosing(r, ast.If).test) == "self in result" for r in rets)
+    # pruning of memento rules: only `self in result`.  Decided on PATH CONDITIONS: the rule joins the set, and
+    # every dependency is visited, exactly when the rule was not collected before (guard clause, nesting and
+    # merged tests alike); the visiting loops are never left early
     adds = [c for c in m.calls("add") if A.norm(A.call_recv(c)) == "result" and [A.norm(a) for a in c.args] == ["self"]]
-    okp = okp and bool(adds) and "package" not in " ".join(A.norm(i.test) for i in m.stmts(ast.If))
+    want_m = {("self in result", False)}
+    okp = bool(adds) and all(_single_conj(m.conditions(c)) == want_m for c in adds + [c for (c, l, s_) in mv])
+    okp = okp and not any(isinstance(x, (ast.Break, ast.Return, ast.Continue)) for (c, l, s_) in mv if l is not None
+                          for lo in [l] + [p_ for p_ in m.stmts((ast.For, ast.While)) if m.inside(l, p_)] for x in A.walk_local(lo))
     ck.ob(R, m.key(None, "pruning"), okp, "memento rules are pruned only when already collected (never by package)" if okp else
           "a memento rule can be dropped for a reason other than 'already collected': cross-package memento dependencies stop versioning", m.where())
     n = FA(ck, CH + ".NonMementoFunctionHashRule.collect_transitive_dependencies")
-    nl = [x.ast for x in n.cfg.nodes if x.kind == "for"]
-    okn = len(nl) == 1 and n.xnorm(nl[0].iter, [x.id for x in n.cfg.nodes if x.kind == "for"][0]) == "list_dotted_names(self.src_fn)" and any(A.call_attr(c) == "_visit_dependency" and A.norm(A.kwarg(c, "symbol")) == A.norm(nl[0].target) for c in A.calls_in(nl[0]))
+    nv = visits(n)
+    okn = len(nv) == 1 and nv[0][2] == {"list_dotted_names(self.src_fn)"}
     ck.ob(R, n.key(None, "dotted-names"), okn, "plain functions are descended through every dotted name of their source" if okn else
           "a plain-function rule no longer visits list_dotted_names(src_fn)", n.where())
-    tests = [A.norm(i.test) for i in n.stmts(ast.If)]
-    okt = set(tests) <= {"self in result", "inspect.getmodule(self.src_fn).__package__ not in package_scope"} and "self in result" in tests
+    nadds = [c for c in n.calls("add") if A.norm(A.call_recv(c)) == "result" and [A.norm(a) for a in c.args] == ["self"]]
+    seen_lits = set()
+    okt = True
+    for c in nadds + [c for (c, l, s_) in nv]:
+        lits = _single_conj(n.conditions(c))
+        if lits is None:
+            okt = False
+            seen_lits.add("<several path classes>")
+            continue
+        seen_lits |= {("" if pol else "not ") + "(" + txt + ")" for (txt, pol) in lits}
+        scope = {l_ for l_ in lits if l_[1] is True and l_[0].endswith("getmodule(self.src_fn).__package__ in package_scope")}
+        okt = okt and ("self in result", False) in lits and not (lits - {("self in result", False)} - scope)
+    okt = okt and bool(nadds)
     ck.ob(R, n.key(None, "pruning"), okt, "plain functions are pruned only when collected already or outside the package scope" if okt else
-          "plain-function pruning conditions changed: %s" % tests, n.where())
-    okadd = bool([c for c in n.calls("add") if A.norm(A.call_recv(c)) == "result" and [A.norm(a) for a in c.args] == ["self"]])
+          "plain-function pruning conditions changed: %s" % sorted(seen_lits), n.where())
+    okadd = bool(nadds)
     ck.ob(R, n.key(None, "adds-self"), okadd, "the plain-function rule joins the rule set" if okadd else "the plain-function rule no longer adds itself", n.where())
     g = FA(ck, CH + ".GlobalVariableHashRule.collect_transitive_dependencies")
     okg = bool([c for c in g.calls("add") if [A.norm(a) for a in c.args] == ["self"]]) and not g.stmts(ast.If)
@@ -524,23 +610,44 @@ def check_descent_complete(ck, R):
     rs = v.fi.nested.get("resolve_symbol")
     ck.need(rs is not None, "_visit_dependency.resolve_symbol not found")
     rsa = FA(ck, rs)
+    # every decision resolve_symbol takes is either "is the object (identically) one of the blacklist" or
+    # "did this strategy resolve it": each branch test is classified by what it compares, whatever the loop /
+    # any() / result-variable spelling
     tests = []
-    for i_ in rsa.stmts(ast.If):
-        t_ = i_.test
-        if isinstance(t_, ast.Compare) and len(t_.ops) == 1 and isinstance(t_.ops[0], ast.IsNot) and A.norm(t_.comparators[0]) == "None" \
-                and isinstance(t_.left, ast.Name) and "call:try_resolve" in rsa.deps(t_.left):
-            tests.append("<try_resolve result> is not None")
-        elif isinstance(t_, ast.Call) and A.norm(t_.func) == "any" and len(t_.args) == 1 and isinstance(t_.args[0], (ast.GeneratorExp, ast.ListComp)) \
+    params = set(rsa.fi.params)
+    for_nodes = {id(x.ast): x.id for x in rsa.cfg.nodes if x.kind == "for"}
+
+    def over_blacklist(name, at):
+        """Is `name` a loop variable ranging over the blacklist?"""
+        return any(d.kind == "for" and d.value is not None and rsa.xnorm(d.value, d.node) == "blacklist" for d in rsa.df.reaching(at, name))
+
+    def classify(t_, at):
+        if isinstance(t_, ast.UnaryOp) and isinstance(t_.op, ast.Not):
+            return classify(t_.operand, at)
+        if isinstance(t_, ast.Compare) and len(t_.ops) == 1 and isinstance(t_.ops[0], (ast.IsNot, ast.Is)) and A.is_none(t_.comparators[0]) \
+                and "call:try_resolve" in rsa.df.deps(t_.left, at):
+            return "<try_resolve result> is not None"
+        if isinstance(t_, ast.Call) and A.norm(t_.func) == "any" and len(t_.args) == 1 and isinstance(t_.args[0], (ast.GeneratorExp, ast.ListComp)) \
                 and len(t_.args[0].generators) == 1 and isinstance(t_.args[0].generators[0].target, ast.Name) and not t_.args[0].generators[0].ifs \
-                and A.norm(t_.args[0].generators[0].iter) == "blacklist" and isinstance(t_.args[0].elt, ast.Compare) and len(t_.args[0].elt.ops) == 1 \
+                and rsa.xnorm(t_.args[0].generators[0].iter, at) == "blacklist" and isinstance(t_.args[0].elt, ast.Compare) and len(t_.args[0].elt.ops) == 1 \
                 and isinstance(t_.args[0].elt.ops[0], ast.Is) and {A.norm(t_.args[0].elt.left), A.norm(t_.args[0].elt.comparators[0])} - {t_.args[0].generators[0].target.id} \
-                <= set(rsa.fi.params) and len({A.norm(t_.args[0].elt.left), A.norm(t_.args[0].elt.comparators[0])}) == 2:
-            tests.append("<blacklist identity>")
-        else:
-            tests.append(A.norm(t_))
+                <= params and len({A.norm(t_.args[0].elt.left), A.norm(t_.args[0].elt.comparators[0])}) == 2:
+            return "<blacklist identity>"
+        if isinstance(t_, ast.Compare) and len(t_.ops) == 1 and isinstance(t_.ops[0], (ast.Is, ast.IsNot)) \
+                and isinstance(t_.left, ast.Name) and isinstance(t_.comparators[0], ast.Name):
+            a_, b_ = t_.left.id, t_.comparators[0].id
+            if (over_blacklist(a_, at) and b_ in params) or (over_blacklist(b_, at) and a_ in params):
+                return "<blacklist identity>"
+        return A.norm(t_)
+
+    for x in rsa.cfg.nodes:
+        if x.kind == "test" and x.id in rsa.cfg.reachable_nodes():
+            for atom in (A.conj_atoms(x.ast) if not (isinstance(x.ast, ast.BoolOp) and isinstance(x.ast.op, ast.Or)) else A.test_atoms(x.ast)):
+                tests.append(classify(atom, x.id))
     okb = set(tests) <= {"<blacklist identity>", "<try_resolve result> is not None"}
-    lp = [x.ast for x in rsa.cfg.nodes if x.kind == "for"]
-    okb = okb and len(lp) == 1 and A.norm(lp[0].iter) == "HashRule.all_rules"
+    lp = [x for x in rsa.cfg.nodes if x.kind == "for" and any(rsa.enclosing(c, (ast.For, ast.AsyncFor)) is x.ast for c in rsa.calls("try_resolve"))]
+    others = [x for x in rsa.cfg.nodes if x.kind == "for" and x not in lp and rsa.xnorm(x.ast.iter, x.id) != "blacklist"]
+    okb = okb and len(lp) == 1 and rsa.xnorm(lp[0].ast.iter, lp[0].id) == "HashRule.all_rules" and not others and not rsa.stmts(ast.While)
     ck.ob(R, rsa.key(None, "blacklist-by-identity"), okb, "symbols are excluded only by blacklist identity; all rule strategies are tried" if okb else
           "resolve_symbol excludes symbols by something other than blacklist identity, or does not try every strategy: %s" % tests, rsa.where())
     # rule strategies registered
@@ -1102,22 +1209,42 @@ def check_did_change(ck, R):
         captured = want.get(cls.name, ())
         ok = False
         why = ""
-        allowed_false_guard = {"GlobalVariableHashRule": ("self.last_value is None",)}.get(cls.name, ())
+        # the answer False without a comparison is allowed only when nothing is tracked.  Decided on PATH
+        # CONDITIONS of every way the constant False can be answered: a `return False`, or a result variable
+        # that still holds its initial False at the return (FA.outcomes)
+        allowed_false_guard = {"GlobalVariableHashRule": (("self.last_value is None", True),)}.get(cls.name, ())
+
+        def is_false(e):
+            return isinstance(e, ast.Constant) and e.value is False
+
+        shortcut = set()
         for r in fa.returns():
-            if isinstance(r.value, ast.Constant) and r.value.value is False:
-                g = fa.enclosing(r, ast.If)
-                okg = g is not None and A.norm(g.test) in allowed_false_guard
-                ck.ob(R, fa.key(r, "no-shortcut"), okg, "`return False` only when nothing is tracked" if okg else
-                      "%s.did_change answers False early under `%s`: a value changed without re-binding the name (list.append, dict[k] = v) or "
-                      "an equal-looking replacement is never noticed" % (cls.name, A.short(g.test, 50) if g is not None else "no guard"), fa.where(r))
-        rets = [r for r in fa.returns() if r.value is not None and not (isinstance(r.value, ast.Constant) and r.value.value is False and fa.enclosing(r, ast.If) is not None)]
+            if r.value is None or not fa.nodes(r):
+                continue
+            conjs = None
+            if is_false(r.value):
+                conjs = fa.conditions(r)
+            elif isinstance(r.value, ast.Name) and any(d.value is not None and is_false(d.value) for i_ in fa.nodes(r) for d in fa.df.reaching(i_, r.value.id)):
+                oc = fa.outcomes(r.value.id)
+                conjs = None if oc is None else [lits for (lits, txt) in oc if txt == "False"]
+            else:
+                continue
+            shortcut.add(id(r))
+            okg = conjs is not None and all(any(l in conj for l in allowed_false_guard) for conj in conjs)
+            extra = sorted({("" if l[1] else "not ") + l[0] for conj in (conjs or []) for l in conj if l not in allowed_false_guard})
+            ck.ob(R, fa.key(r, "no-shortcut"), okg, "False is answered without comparing only when nothing is tracked" if okg else
+                  "%s.did_change answers False early under `%s`: a value changed without re-binding the name (list.append, dict[k] = v) or "
+                  "an equal-looking replacement is never noticed" % (cls.name, "; ".join(extra)[:80] if extra else "no guard"), fa.where(r))
+        rets = [r for r in fa.returns() if r.value is not None and fa.nodes(r) and not (is_false(r.value) and id(r) in shortcut and fa.enclosing(r, ast.If) is not None)]
         if not rets:
             why = "returns a constant"
         for r in rets:
             d = fa.deps(r.value)
-            fresh = "call:resolver" in d or (cls.name == "UndefinedSymbolHashRule" and ("call:hasattr" in d or any(isinstance(n, ast.Compare) and isinstance(n.ops[0], ast.In) for n in ast.walk(r.value))))
+            fl = list(_flow(fa, r.value).values())
+            has_in = any(isinstance(n, ast.Compare) and isinstance(n.ops[0], ast.In) for n in fl)
+            fresh = "call:resolver" in d or (cls.name == "UndefinedSymbolHashRule" and ("call:hasattr" in d or has_in))
             cap = all(("attr:self." + c) in d for c in captured)
-            cmp_ = any(isinstance(n, ast.Compare) and isinstance(n.ops[0], (ast.Is, ast.IsNot, ast.Eq, ast.NotEq, ast.In, ast.NotIn)) for n in ast.walk(r.value)) or "call:hasattr" in d
+            cmp_ = any(isinstance(n, ast.Compare) and isinstance(n.ops[0], (ast.Is, ast.IsNot, ast.Eq, ast.NotEq, ast.In, ast.NotIn)) for n in fl) or "call:hasattr" in d
             if isinstance(r.value, ast.Constant):
                 why = "returns the constant %r" % r.value.value
                 ok = False
